@@ -145,21 +145,20 @@ func c20run(c *fw.Ctx, idx int) {
 	total := 0
 	limit := 50*len(want) + 1000
 	var pan interface{}
-	func() {
-		defer func() { pan = recover() }()
-		utils.Walk(t, utils.VisitorFunc(func(vc utils.VisitorContext, node jet.Node) {
-			total++
-			if total > limit {
-				panic(fmt.Sprintf("runaway walk: more than %d visits for %d nodes", limit, len(want)))
-			}
-			if node == nil || (reflect.ValueOf(node).Kind() == reflect.Ptr && reflect.ValueOf(node).IsNil()) {
-				nilVisits++
-				return
-			}
-			visits[reflect.ValueOf(node).Pointer()]++
-			vc.Visit(node)
-		}))
-	}()
+	// a template is walked twice: the second walk must see exactly what the first one saw
+	for round := 0; round < 2 && pan == nil; round++ {
+		if round == 1 {
+			first := visits
+			visits = map[uintptr]int{}
+			total = 0
+			defer func(first map[uintptr]int) {
+				if pan == nil && len(first) != len(visits) {
+					c.Violation("c20:second-walk-differs", "", fmt.Sprintf("first walk visited %d distinct nodes, a second walk of the same template %d", len(first), len(visits)))
+				}
+			}(first)
+		}
+		c20walk(t, &pan, &total, limit, len(want), &nilVisits, visits)
+	}
 	c.Count("walks", 1)
 	c.Count("nodes", len(want))
 	kinds := map[string]bool{}
@@ -223,4 +222,24 @@ func init() {
 		RunCase:     c20run,
 		MinDistinct: 200,
 	})
+}
+
+func c20walk(t *jet.Template, pan *interface{}, total *int, limit, nwant int, nilVisits *int, visits map[uintptr]int) {
+	defer func() {
+		if r := recover(); r != nil {
+			*pan = r
+		}
+	}()
+	utils.Walk(t, utils.VisitorFunc(func(vc utils.VisitorContext, node jet.Node) {
+		*total++
+		if *total > limit {
+			panic(fmt.Sprintf("runaway walk: more than %d visits for %d nodes", limit, nwant))
+		}
+		if node == nil || (reflect.ValueOf(node).Kind() == reflect.Ptr && reflect.ValueOf(node).IsNil()) {
+			*nilVisits++
+			return
+		}
+		visits[reflect.ValueOf(node).Pointer()]++
+		vc.Visit(node)
+	}))
 }
